@@ -97,6 +97,15 @@ func (in *Interp) fresh(prefix string, w int) *Term {
 	return t
 }
 
+// freshHidden creates a symbolic value that is not a harness input (environment nondeterminism
+// such as random numbers); it does not appear in replay files.
+func (in *Interp) freshHidden(prefix string, w int) *Term {
+	in.nvar++
+	t := in.ts.Var(fmt.Sprintf("%s_%d", prefix, in.nvar), w)
+	in.hidden = append(in.hidden, t)
+	return t
+}
+
 func (in *Interp) argStr(v Value) string {
 	s := v.(Str)
 	if !s.Concrete() {
@@ -589,6 +598,11 @@ func init() {
 
 	reg("github.com/buildbarn/bb-storage/pkg/blobstore/local.unixTime", func(in *Interp, fr *frame, a []Value) Value {
 		return float64(0) // wall-clock time: only feeds a metrics gauge
+	})
+
+	// ---- randomness: arbitrary values ----
+	reg("(github.com/buildbarn/bb-storage/pkg/random.cryptoSource).Uint64", func(in *Interp, fr *frame, a []Value) Value {
+		return in.freshHidden("rand", 64)
 	})
 
 	// ---- time ----
